@@ -255,8 +255,7 @@ Proof.
   cbn [fst snd] in *. subst q2.
   destruct q1 as [[]|e| |]; try (cbn; auto).
   rewrite (Bf eq_refl).
-  destruct (bs <? (f_frag_off f + f_size f mod bs) mod u32m); [cbn; auto|].
-  destruct (bs <? f_frag_off f + f_size f mod bs); cbn; auto.
+  destruct (snd (frag_buf e2) <? f_frag_off f + f_size f mod bs); cbn; auto.
 Qed.
 
 Notation refill := (stream_refill uncompress file bs).
